@@ -15,7 +15,7 @@ import os
 from vf.engine import obligation
 from vf.spec import enc as E
 from vf.bits import Seq
-from harness.common import call, is_error
+from harness.common import call, is_error, no_verdict
 
 F = 'pytoniq_core.proof.check_proof.'
 T6 = 'T6: Ed25519 verification (PyNaCl) is used through its contract: a deterministic predicate V(public key, message, signature)'
@@ -164,7 +164,8 @@ def threshold(w):
     pre = segs[0][1]({'nodes': [], 'signatures': [], 'blk': Blk(b'\0' * 32, b'\1' * 32)})
     L = dict(pre[-1])
     ints = [k for k, v in L.items() if type(v) is int]
-    w.claim('the two accumulators are found among the locals', len(ints) >= 2)
+    if len(ints) < 2:
+        no_verdict(w, 'the two weight accumulators are not among the locals after the loops')
     total = w.int('total', 0, 1 << 80)
     delta = w.int('delta', -(1 << 80), 1 << 80)
     signed = (2 * total) // 3 + delta            # any value (delta is free): written relative to the boundary so that the
@@ -172,11 +173,9 @@ def threshold(w):
     # identify the accumulators by running the real loops on a tiny concrete instance
     probe = loopcut.run_state(segs[:4], {'nodes': [Node(_pk(0), 5), Node(_pk(1), 7)], 'signatures': [], 'blk': Blk(b'\0' * 32, b'\1' * 32)})
     tot_names = [k for k, v in probe.items() if type(v) is int and v == 12]
-    w.claim('total-weight accumulator identified', len(tot_names) == 1)
     sg_names = [k for k in ints if k not in tot_names and probe.get(k) == 0 and k != 'i']
     if len(tot_names) != 1 or not sg_names:
-        w.claim('signed-weight accumulator identified', False)
-        return
+        no_verdict(w, 'total / signed weight accumulators could not be identified')
     L2 = dict(probe)
     L2[tot_names[0]] = total
     for nm in sg_names:
